@@ -5105,7 +5105,18 @@ class TLSConnection(TLSRecordLayer):
     def _serverAnonKeyExchange(self, serverHello, keyExchange, cipherSuite):
 
         # Create ServerKeyExchange
-        serverKeyExchange = keyExchange.makeServerKeyExchange()
+        try:
+            serverKeyExchange = keyExchange.makeServerKeyExchange()
+        except TLSInternalError as alert:
+            for result in self._sendError(
+                    AlertDescription.internal_error,
+                    str(alert)):
+                yield result
+        except TLSInsufficientSecurity as alert:
+            for result in self._sendError(
+                    AlertDescription.insufficient_security,
+                    str(alert)):
+                yield result
 
         # Send ServerHello[, Certificate], ServerKeyExchange,
         # ServerHelloDone
